@@ -168,6 +168,18 @@ async fn ep_gate_handler(
     gated(rqctx.context().clone(), rqctx.request_id.clone(), path.into_inner().n, "ok").await
 }
 
+// Like /gate, but the handler gives up its RequestContext before it waits.
+#[endpoint { method = GET, path = "/gatedrop/{n}" }]
+async fn ep_gatedrop_handler(
+    rqctx: RequestContext<Arc<Ctx>>,
+    path: Path<NPath>,
+) -> Result<HttpResponseOk<String>, HttpError> {
+    let ctx = rqctx.context().clone();
+    let id = rqctx.request_id.clone();
+    drop(rqctx);
+    gated(ctx, id, path.into_inner().n, "ok").await
+}
+
 #[endpoint { method = GET, path = "/panic/{n}" }]
 async fn ep_panic_handler(
     rqctx: RequestContext<Arc<Ctx>>,
@@ -209,6 +221,7 @@ enum Step {
     Recv(usize),        // read the response
     RecvNone(usize),    // expect no response (connection dies)
     Disconnect(usize),  // by request index: its connection
+    Reset(usize),       // HTTP/2: reset this request's stream only
     AwaitCancel(usize), // cancel mode: handler dropped
     Close,
 }
@@ -217,6 +230,7 @@ enum Step {
 struct ReqPlan {
     nonce: String,
     conn: usize,
+    h2: bool,
     kind: &'static str,     // gate | panic | err | body | badpath | badquery | badbody | notfound
     partial: &'static str,  // full | head | body
     fate: &'static str,     // normal | disc_after_send | disc_after_enter | disc_after_step | disc_after_complete | disc_partial
@@ -226,6 +240,7 @@ fn request_bytes(p: &ReqPlan) -> Vec<u8> {
     let hdr = vec![("x-verif-nonce".to_string(), p.nonce.clone())];
     match p.kind {
         "gate" => httpc::build_request("GET", &format!("/gate/{}", p.nonce), &hdr, None),
+        "gatedrop" => httpc::build_request("GET", &format!("/gatedrop/{}", p.nonce), &hdr, None),
         "panic" => httpc::build_request("GET", &format!("/panic/{}", p.nonce), &hdr, None),
         "err" => httpc::build_request("GET", &format!("/err/{}", p.nonce), &hdr, None),
         "body" => httpc::build_request("PUT", &format!("/body/{}", p.nonce), &hdr, Some(b"{\"x\": 12345}")),
@@ -236,18 +251,34 @@ fn request_bytes(p: &ReqPlan) -> Vec<u8> {
     }
 }
 
-fn runs_handler(kind: &str) -> bool {
-    matches!(kind, "gate" | "panic" | "err" | "body")
+/// (method, target, body) of a request, for the HTTP/2 client
+fn request_parts(p: &ReqPlan) -> (&'static str, String, Option<&'static [u8]>) {
+    match p.kind {
+        "gate" => ("GET", format!("/gate/{}", p.nonce), None),
+        "gatedrop" => ("GET", format!("/gatedrop/{}", p.nonce), None),
+        "panic" => ("GET", format!("/panic/{}", p.nonce), None),
+        "err" => ("GET", format!("/err/{}", p.nonce), None),
+        "body" => ("PUT", format!("/body/{}", p.nonce), Some(b"{\"x\": 12345}")),
+        "badquery" => ("GET", format!("/gate/{}?k=notanumber", p.nonce), None),
+        "badbody" => ("PUT", format!("/body/{}", p.nonce), Some(b"{\"x\": \"str\"}")),
+        "badpath" => ("GET", format!("/gate/{}/%2e%2e", p.nonce), None),
+        _ => ("GET", format!("/nosuch/{}", p.nonce), None),
+    }
 }
 
-fn make_plan(r: &mut StdRng, ep: u64, mode: &str) -> (Vec<ReqPlan>, Vec<Step>, usize) {
+fn runs_handler(kind: &str) -> bool {
+    matches!(kind, "gate" | "gatedrop" | "panic" | "err" | "body")
+}
+
+fn make_plan(r: &mut StdRng, ep: u64, mode: &str) -> (Vec<ReqPlan>, Vec<Step>, usize, Vec<bool>) {
     let nreq = r.gen_range(1..=4);
     let mut reqs: Vec<ReqPlan> = vec![];
     let mut nconn = 0usize;
     // which connections are "finished" (their last request disconnects / panics)
     let mut conn_closed: Vec<bool> = vec![];
+    let mut conn_h2: Vec<bool> = vec![];
     for i in 0..nreq {
-        let kind = *["gate", "gate", "gate", "body", "panic", "err", "badquery", "badbody", "badpath", "notfound"]
+        let kind = *["gate", "gate", "gatedrop", "gatedrop", "body", "panic", "err", "badquery", "badbody", "badpath", "notfound"]
             .choose(r)
             .unwrap();
         let reusable: Vec<usize> = (0..nconn).filter(|c| !conn_closed[*c]).collect();
@@ -256,9 +287,13 @@ fn make_plan(r: &mut StdRng, ep: u64, mode: &str) -> (Vec<ReqPlan>, Vec<Step>, u
         } else {
             nconn += 1;
             conn_closed.push(false);
+            conn_h2.push(r.gen_bool(0.35));
             nconn - 1
         };
-        let partial = if kind == "body" && r.gen_bool(0.4) {
+        let h2 = conn_h2[conn];
+        let partial = if h2 {
+            "full"
+        } else if kind == "body" && r.gen_bool(0.4) {
             "body"
         } else if r.gen_bool(0.15) {
             "head"
@@ -268,14 +303,19 @@ fn make_plan(r: &mut StdRng, ep: u64, mode: &str) -> (Vec<ReqPlan>, Vec<Step>, u
         let fate = if partial != "full" && r.gen_bool(0.4) {
             "disc_partial"
         } else if runs_handler(kind) && kind != "panic" && r.gen_bool(0.45) {
-            *["disc_after_send", "disc_after_enter", "disc_after_step", "disc_after_complete"].choose(r).unwrap()
+            if h2 && r.gen_bool(0.6) {
+                *["reset_after_enter", "reset_after_step"].choose(r).unwrap()
+            } else {
+                *["disc_after_send", "disc_after_enter", "disc_after_step", "disc_after_complete"].choose(r).unwrap()
+            }
         } else {
             "normal"
         };
-        if fate != "normal" || kind == "panic" {
+        // a disconnect ends the connection; a panic ends an HTTP/1 connection
+        if fate.starts_with("disc") || (kind == "panic" && !h2) {
             conn_closed[conn] = true;
         }
-        reqs.push(ReqPlan { nonce: format!("e{}r{}", ep, i), conn, kind, partial, fate });
+        reqs.push(ReqPlan { nonce: format!("e{}r{}", ep, i), conn, h2, kind, partial, fate });
     }
     let _ = mode;
     // per-request step lists
@@ -322,6 +362,21 @@ fn make_plan(r: &mut StdRng, ep: u64, mode: &str) -> (Vec<ReqPlan>, Vec<Step>, u
                 s.push(Step::AwaitCancel(i));
                 s.push(Step::Release2(i));
             }
+            "reset_after_enter" => {
+                s.push(Step::AwaitEnter(i));
+                s.push(Step::Reset(i));
+                s.push(Step::AwaitCancel(i));
+                s.push(Step::Release1(i));
+                s.push(Step::Release2(i));
+            }
+            "reset_after_step" => {
+                s.push(Step::AwaitEnter(i));
+                s.push(Step::Release1(i));
+                s.push(Step::AwaitStep(i));
+                s.push(Step::Reset(i));
+                s.push(Step::AwaitCancel(i));
+                s.push(Step::Release2(i));
+            }
             "disc_after_complete" => {
                 s.push(Step::AwaitEnter(i));
                 s.push(Step::Release1(i));
@@ -360,7 +415,14 @@ fn make_plan(r: &mut StdRng, ep: u64, mode: &str) -> (Vec<ReqPlan>, Vec<Step>, u
                 // earlier requests on the same connection must be finished,
                 // except that a Send may be pipelined
                 let earlier_done = (0..i).all(|j| reqs[j].conn != reqs[i].conn || idx[j] >= lists[j].len());
+                let concurrent_ok = reqs[i].h2
+                    && !reqs[i].fate.starts_with("disc")
+                    && (0..i).all(|j| {
+                        reqs[j].conn != reqs[i].conn
+                            || lists[j].iter().enumerate().all(|(pos, st)| !matches!(st, Step::Connect(_)) || pos < idx[j])
+                    });
                 earlier_done
+                    || concurrent_ok
                     || (matches!(lists[i][idx[i]], Step::Send(_))
                         && reqs[i].partial == "full"
                         && (0..i).all(|j| {
@@ -382,23 +444,82 @@ fn make_plan(r: &mut StdRng, ep: u64, mode: &str) -> (Vec<ReqPlan>, Vec<Step>, u
     if close_at.is_some() && !plan.contains(&Step::Close) {
         plan.push(Step::Close);
     }
-    (reqs, plan, nconn)
+    (reqs, plan, nconn, conn_h2)
 }
 
 // ---------------------------------------------------------------------------
 // episode execution
 // ---------------------------------------------------------------------------
+type H2Sender = hyper::client::conn::http2::SendRequest<http_body_util::Full<bytes::Bytes>>;
+
 struct ConnState {
     stream: Option<TcpStream>,
     reader: httpc::Reader,
     port: u16,
+    h2: Option<(H2Sender, tokio::task::JoinHandle<()>)>,
+}
+
+impl ConnState {
+    fn is_open(&self) -> bool {
+        self.stream.is_some() || self.h2.is_some()
+    }
+    fn close(&mut self) {
+        self.stream = None;
+        if let Some((sender, driver)) = self.h2.take() {
+            drop(sender);
+            driver.abort();
+        }
+    }
+}
+
+/// One HTTP/2 request as its own task: emits what the client observed.
+fn spawn_h2_request(mut sender: H2Sender, q: ReqPlan) -> tokio::task::JoinHandle<()> {
+    tokio::spawn(async move {
+        let (method, target, body) = request_parts(&q);
+        let req = http::Request::builder()
+            .method(method)
+            .uri(format!("http://localhost{}", target))
+            .header("x-verif-nonce", q.nonce.clone())
+            .body(http_body_util::Full::new(bytes::Bytes::from_static(body.unwrap_or(b""))))
+            .unwrap();
+        if sender.ready().await.is_err() {
+            emit("client_noresp", json!({"n": q.nonce, "empty": true, "problem": "h2 not ready"}));
+            return;
+        }
+        match sender.send_request(req).await {
+            Ok(resp) => {
+                let status = resp.status().as_u16();
+                let idhdr: Vec<String> = resp
+                    .headers()
+                    .get_all("x-request-id")
+                    .iter()
+                    .map(|v| v.to_str().unwrap_or("?").to_string())
+                    .collect();
+                use http_body_util::BodyExt;
+                match resp.into_body().collect().await {
+                    Ok(b) => {
+                        let b = b.to_bytes();
+                        let idbody = serde_json::from_slice::<serde_json::Value>(&b)
+                            .ok()
+                            .and_then(|v| v.get("request_id").and_then(|x| x.as_str()).map(|x| x.to_string()))
+                            .unwrap_or_default();
+                        emit("client_recv", json!({"n": q.nonce, "status": status, "complete": true,
+                            "idhdr": idhdr, "idbody": idbody, "nbody": b.len()}));
+                    }
+                    Err(e) => emit("client_noresp", json!({"n": q.nonce, "empty": false, "problem": format!("h2 body: {}", e)})),
+                }
+            }
+            Err(e) => emit("client_noresp", json!({"n": q.nonce, "empty": true, "problem": format!("h2: {}", e)})),
+        }
+    })
 }
 
 async fn run_episode(r: &mut StdRng, ep: u64, mode: &str) {
-    let (reqs, plan, nconn) = make_plan(r, ep, mode);
+    let (reqs, plan, nconn, conn_h2) = make_plan(r, ep, mode);
     let ctx = Arc::new(Ctx { reqs: Mutex::new(HashMap::new()), changed: tokio::sync::Notify::new() });
     let mut api = ApiDescription::new();
     api.register(ep_gate_handler).unwrap();
+    api.register(ep_gatedrop_handler).unwrap();
     api.register(ep_panic_handler).unwrap();
     api.register(ep_err_handler).unwrap();
     api.register(ep_body_handler).unwrap();
@@ -414,7 +535,7 @@ async fn run_episode(r: &mut StdRng, ep: u64, mode: &str) {
     };
     emit("reset", json!({"episode": ep, "mode": mode,
         "plan": plan.iter().map(|s| format!("{:?}", s)).collect::<Vec<_>>(),
-        "reqs": reqs.iter().map(|q| json!({"n": q.nonce, "conn": q.conn, "kind": q.kind, "partial": q.partial, "fate": q.fate})).collect::<Vec<_>>()}));
+        "reqs": reqs.iter().map(|q| json!({"n": q.nonce, "conn": q.conn, "h2": q.h2, "kind": q.kind, "partial": q.partial, "fate": q.fate})).collect::<Vec<_>>()}));
     let server = ServerBuilder::new(api, ctx.clone(), log).config(config).start().expect("server");
     let addr = server.local_addr();
     let waiter1 = server.wait_for_shutdown();
@@ -422,7 +543,8 @@ async fn run_episode(r: &mut StdRng, ep: u64, mode: &str) {
     let mut server = Some(server);
     let mut close_task: Option<tokio::task::JoinHandle<Result<(), String>>> = None;
     let mut conns: Vec<ConnState> =
-        (0..nconn).map(|_| ConnState { stream: None, reader: httpc::Reader::new(), port: 0 }).collect();
+        (0..nconn).map(|_| ConnState { stream: None, reader: httpc::Reader::new(), port: 0, h2: None }).collect();
+    let mut h2_tasks: HashMap<usize, tokio::task::JoinHandle<()>> = HashMap::new();
     let mut abandoned = false;
     let mut cuts: HashMap<String, usize> = HashMap::new();
     let mut close_called = false;
@@ -442,7 +564,23 @@ async fn run_episode(r: &mut StdRng, ep: u64, mode: &str) {
                     Ok(s) => {
                         let _ = s.set_nodelay(true);
                         conns[*c].port = port;
-                        conns[*c].stream = Some(s);
+                        if conn_h2[*c] {
+                            let io = hyper_util::rt::TokioIo::new(s);
+                            match hyper::client::conn::http2::handshake(hyper_util::rt::TokioExecutor::new(), io).await {
+                                Ok((sender, conn)) => {
+                                    let driver = tokio::spawn(async move {
+                                        let _ = conn.await;
+                                    });
+                                    conns[*c].h2 = Some((sender, driver));
+                                }
+                                Err(_) => {
+                                    emit("connect_failed", json!({"c": format!("c{}", c), "kind": "h2 handshake"}));
+                                    abandoned = true;
+                                }
+                            }
+                        } else {
+                            conns[*c].stream = Some(s);
+                        }
                     }
                     Err(e) => {
                         // only legitimate once shutdown has begun
@@ -461,7 +599,10 @@ async fn run_episode(r: &mut StdRng, ep: u64, mode: &str) {
                 };
                 cuts.insert(q.nonce.clone(), cut);
                 let c = &mut conns[q.conn];
-                if let Some(s) = c.stream.as_mut() {
+                if let Some((sender, _)) = c.h2.as_ref() {
+                    emit("client_send", json!({"k": format!("r{}", i), "c": format!("c{}", q.conn), "n": q.nonce, "port": c.port, "kind": "full", "ep": q.kind, "h2": true}));
+                    h2_tasks.insert(*i, spawn_h2_request(sender.clone(), q.clone()));
+                } else if let Some(s) = c.stream.as_mut() {
                     emit("client_send", json!({"k": format!("r{}", i), "c": format!("c{}", q.conn), "n": q.nonce, "port": c.port, "kind": q.partial, "ep": q.kind}));
                     if s.write_all(&bytes[..cut]).await.is_err() {
                         emit("client_write_failed", json!({"n": q.nonce}));
@@ -520,7 +661,14 @@ async fn run_episode(r: &mut StdRng, ep: u64, mode: &str) {
             Step::Recv(i) | Step::RecvNone(i) => {
                 let q = &reqs[*i];
                 let c = &mut conns[q.conn];
-                if let Some(s) = c.stream.as_mut() {
+                if let Some(task) = h2_tasks.remove(i) {
+                    let t = if close_called && ctx.phase(&q.nonce) == "" { Duration::from_millis(3000) } else { AWAIT };
+                    let mut task = task;
+                    if tokio::time::timeout(t, &mut task).await.is_err() {
+                        emit("client_timeout", json!({"n": q.nonce}));
+                        task.abort();
+                    }
+                } else if let Some(s) = c.stream.as_mut() {
                     // a request that the server never picked up because shutdown
                     // had begun is not worth a long wait
                     let t = if close_called && ctx.phase(&q.nonce) == "" && runs_handler(q.kind) {
@@ -551,9 +699,22 @@ async fn run_episode(r: &mut StdRng, ep: u64, mode: &str) {
             Step::Disconnect(i) => {
                 let q = &reqs[*i];
                 let c = &mut conns[q.conn];
-                if c.stream.is_some() {
+                if c.is_open() {
                     emit("client_disconnect", json!({"c": format!("c{}", q.conn), "port": c.port}));
-                    c.stream = None; // drop closes the socket
+                    // HTTP/2: the connection only closes once every handle to it is gone
+                    let on_conn: Vec<usize> = h2_tasks.keys().cloned().filter(|j| reqs[*j].conn == q.conn).collect();
+                    for j in on_conn {
+                        if let Some(t) = h2_tasks.remove(&j) {
+                            t.abort();
+                        }
+                    }
+                    c.close(); // closes the socket
+                }
+            }
+            Step::Reset(i) => {
+                if let Some(task) = h2_tasks.remove(i) {
+                    emit("client_reset", json!({"k": format!("r{}", i), "n": reqs[*i].nonce}));
+                    task.abort(); // dropping the response future resets the stream
                 }
             }
             Step::Close => {
@@ -583,10 +744,16 @@ async fn run_episode(r: &mut StdRng, ep: u64, mode: &str) {
             ctx.await_phase(&q.nonce, &["completed", "panicked", "dropped"]).await;
         }
     }
+    // give HTTP/2 request tasks a moment to report what they received
+    for (_, mut task) in h2_tasks.drain() {
+        if tokio::time::timeout(Duration::from_millis(1500), &mut task).await.is_err() {
+            task.abort();
+        }
+    }
     for (ci, c) in conns.iter_mut().enumerate() {
-        if c.stream.is_some() {
+        if c.is_open() {
             emit("client_disconnect", json!({"c": format!("c{}", ci), "port": c.port}));
-            c.stream = None;
+            c.close();
         }
     }
     if let Some(srv) = server.take() {
